@@ -159,6 +159,13 @@ impl ClientVisibility {
             }
             VisibilityList::Whitelist(list) => {
                 if visible {
+                    // If the entity was hidden in this tick, then undo it.
+                    // The client still has the entity, so it shouldn't be marked as newly added.
+                    if self.removed.remove(&entity) {
+                        list.insert(entity, WhitelistInfo::Visible);
+                        return;
+                    }
+
                     // Similar to blacklist removal, we don't just add the entity to the list.
                     // Instead we mark it as `WhitelistInfo::JustAdded` and then set it to
                     // 'WhitelistInfo::Visible' in `Self::update`.
@@ -170,7 +177,6 @@ impl ClientVisibility {
                         // Do not mark an entry as newly added if the entry was already in the list.
                         self.added.insert(entity);
                     }
-                    self.removed.remove(&entity);
                 } else {
                     // If the entity is not in the whitelist, do nothing.
                     if list.remove(&entity).is_none() {
